@@ -24,6 +24,9 @@ type VFConfig struct {
 	MergeInterval int
 	NoMerged      bool
 	TreeDump      int
+	BodyBig       int64 // protocol: sets above this size may be refused when the flush buffer is large
+	FlushMax      int64
+	MaxReq        int
 }
 
 func (c *VFConfig) fill() {
@@ -87,10 +90,19 @@ func VFApplyConfig(cfg VFConfig, home string) {
 	config.MCConf = config.DefaultMCConfig
 	config.MCConf.BodyMax = cfg.BodyMax
 	config.MCConf.BodyBig = 1 << 20
+	if cfg.BodyBig > 0 {
+		config.MCConf.BodyBig = cfg.BodyBig
+	}
 	config.MCConf.BodyInC = cfg.BodyInC
 	config.MCConf.FlushMax = 100 << 20
+	if cfg.FlushMax > 0 {
+		config.MCConf.FlushMax = cfg.FlushMax
+	}
 	config.MCConf.TimeoutMS = 3600 * 1000
 	config.MCConf.MaxReq = 16
+	if cfg.MaxReq > 0 {
+		config.MCConf.MaxReq = cfg.MaxReq
+	}
 	config.MCConf.MaxKeyLen = 250
 	if home != "" {
 		os.MkdirAll(home, 0755)
